@@ -27,9 +27,12 @@ Definition c_nfts (c : col) : list (Z * ninfo) := snd (snd c).
 (** ExportGenesis = GetCollections: classes in id order, NFTs in id order *)
 Definition export (s : state) : genesis := s.
 
-(** types.ValidateGenesis *)
-Definition validate (g : genesis) : bool :=
-  forallb (fun c => d_id_ok (c_info c) && forallb (fun n => n_ok (snd n)) (c_nfts c)) g.
+(** types.ValidateGenesis.  [fx]: the repaired validation (commit "fix: nft genesis validation rejects
+    repeated class ids, repeated NFT ids within a class and a creator that is not an address") *)
+Definition validate (fx : bool) (g : genesis) : bool :=
+  forallb (fun c => d_id_ok (c_info c) && forallb (fun n => n_ok (snd n)) (c_nfts c)) g
+  && (if fx then nodupb (map fst g) && forallb (fun c => (0 <=? d_creator (c_info c)) && nodupb (map fst (c_nfts c))) g
+      else true).
 
 (** InitGenesis: SaveDenom then SaveCollection (= Mint per NFT) per collection; any error panics *)
 Fixpoint imp_nfts (l : list (Z * ninfo)) (ns : list (Z * ninfo)) : option (list (Z * ninfo)) :=
@@ -48,8 +51,8 @@ Fixpoint imp_cols (g : list col) (cs : state) : option state :=
            | Some ns => imp_cols g' (oins lt1 (fst c) (c_info c, ns) cs)
            end
   end.
-Definition import (g : genesis) : option state :=
-  if negb (validate g) then None else imp_cols g [].
+Definition import (fx : bool) (g : genesis) : option state :=
+  if negb (validate fx g) then None else imp_cols g [].
 
 (** Queries: Denoms / Denom, Collection / NFT (with owner), Supply of a class, NFTsOfOwner *)
 Definition supply_view (s : state) : list (Z * Z) := map (fun c => (fst c, Z.of_nat (length (c_nfts c)))) s.
@@ -68,32 +71,42 @@ Definition invb (s : state) : bool := sortedb lt1 s && forallb col_ok s.
 Record run := mkRun {
   r_sA : state; r_gA : genesis; r_val : bool; r_imp : Z; r_sB : option state; r_gB : option genesis;
   r_vA : list (Z * Z) * list ((Z * Z * Z) * unit);           (* Supply and NFTsOfOwner answers on A *)
-  r_vB : option (list (Z * Z) * list ((Z * Z * Z) * unit))   (* ... on B *)
+  r_vB : option (list (Z * Z) * list ((Z * Z * Z) * unit));  (* ... on B *)
+  r_t : option (genesis * bool * Z)       (* a tampered copy of the export: the genesis, ValidateGenesis = nil, InitGenesis 0 ok / 2 panic *)
 }.
 Record case := mkCase { c_runs : list run }.
 
 Definition views_of (s : state) := (supply_view s, owner_view s).
 
+(** the tree under check contains the repair *)
+Definition fixed_v : bool := true.
+
 Definition corr_run (r : run) : bool :=
   invb (r_sA r)
   && eqb (export (r_sA r)) (r_gA r)
   && eqb (views_of (r_sA r)) (r_vA r)
-  && eqb (validate (r_gA r)) (r_val r)
-  && match import (r_gA r) with
+  && eqb (validate fixed_v (r_gA r)) (r_val r)
+  && match import fixed_v (r_gA r) with
      | None => negb (r_imp r =? 0)
      | Some b => (r_imp r =? 0) && eqb (r_sB r) (Some b) && eqb (r_gB r) (Some (export b))
                  && eqb (r_vB r) (Some (views_of b))
+     end
+  && match r_t r with
+     | Some (tg, tv, ti) => eqb (validate fixed_v tg) tv && eqb (match import fixed_v tg with Some _ => true | None => false end) (ti =? 0)
+     | None => true
      end.
 
 (** clause codes: 1 export does not validate; 2 import panics; 3 second export differs;
-    4 a class / an NFT / an owner reads differently on B; 5 a supply or an owner's list differs on B *)
+    4 a class / an NFT / an owner reads differently on B; 5 a supply or an owner's list differs on B;
+    6 a (tampered) genesis that ValidateGenesis accepts makes InitGenesis panic *)
 Definition prop_run (r : run) : Z :=
   first_code
     [ (1, r_val r);
       (2, r_imp r =? 0);
       (3, match r_gB r with Some g => eqb g (r_gA r) | None => true end);
       (4, match r_sB r with Some b => eqb b (r_sA r) | None => true end);
-      (5, match r_vB r with Some v => eqb v (r_vA r) | None => true end) ].
+      (5, match r_vB r with Some v => eqb v (r_vA r) | None => true end);
+      (6, match r_t r with Some (_, tv, ti) => negb tv || (ti =? 0) | None => true end) ].
 
 Fixpoint check_runs (rs : list run) (i : Z) (corr prop code : Z) : Z * Z * Z :=
   match rs with
